@@ -514,7 +514,7 @@ func (wf *workflow) topo(format string, a ...any) {
 }
 
 func (wf *workflow) addRequester(q qid, wid int, w *packet.Writer) {
-	r := &requester{q: q, wid: wid, w: w, kind: wf.sc.kinds[q], cmd: make(chan reqCmd, 16), res: make(chan reqRes, 16)}
+	r := &requester{q: q, wid: wid, w: w, kind: wf.sc.kinds[q], cmd: make(chan reqCmd, 256), res: make(chan reqRes, 256)}
 	wf.reqs = append(wf.reqs, r)
 	wf.reqOf[q] = r
 	w.AddInboundHook(packet.HookFunc(func(p *packet.Packet) {
@@ -2189,6 +2189,22 @@ func Run(c *lib.Ctx) {
 				}
 				runOne(sc, prefix, []action{a, b})
 			}
+		}
+	}
+	// 2b. size families (sizes.go): 9–40 requests outstanding at the teardown, on fresh and warmed-up writers
+	for i := 0; i < c.Scale(10, 60) && unknownFails < 6; i++ {
+		sc, warm, outstanding := genSizeScen(rng.Fork(), 20000+i)
+		primary, _ := actions(sc)
+		c.Hit("size-outstanding-" + sizeBucket(outstanding))
+		c.Hit(fmt.Sprintf("size-warm-up-%d", warm))
+		for _, a := range primary {
+			c.Hit("size-action-" + a.kind)
+			runOne(sc, len(sc.events), []action{a})
+		}
+		// the same teardown with some of the requests already outstanding and the rest still to come is the
+		// ordinary enumeration; one earlier crash point with ≥ 9 outstanding is enough here
+		if outstanding > 12 {
+			runOne(sc, len(sc.events)-3, []action{primary[rng.Intn(len(primary))]})
 		}
 	}
 	// 3. fan-in: several writers on one reader (fanin.go)
